@@ -23,8 +23,9 @@ PROP = {
     "theorems": [
         "Wm.Chain.wrap_eq_compose", "Wm.Chain.chain_trace", "Wm.Chain.enter_mem_iff", "Wm.Chain.leave_mem_iff",
         "Wm.Chain.own_and_router_level_run", "Wm.Chain.no_foreign_middleware",
-        "Wm.Chain.decoratePublisher_eq_compose", "Wm.Chain.decorateSubscriber_eq_compose",
-        "Wm.Chain.pub_decorators_in_order", "Wm.Chain.sub_decorators_in_order", "Wm.Chain.sub_decorators_in_order_from",
+        "Wm.Chain.decoratePublisher_eq_compose", "Wm.Chain.decorateHandlerPublisher_nil", "Wm.Chain.decorateSubscriber_eq_compose",
+        "Wm.Chain.pub_decorators_in_order", "Wm.Chain.pub_decorators_in_order_n", "Wm.Chain.pubTraceN_one",
+        "Wm.Chain.sub_decorators_in_order", "Wm.Chain.sub_decorators_in_order_from",
         "Wm.Chain.msg_trace_spec", "Wm.Chain.chain_perm_invariant", "Wm.Chain.chain_sublist",
         "Wm.Chain.plugins_loaded_before_handlers_start", "Wm.Chain.caller_edits_invisible",
         "Wm.Chain.exec_regs", "Wm.Chain.started_frozen", "Wm.Chain.program_chain_trace",
@@ -32,7 +33,7 @@ PROP = {
     # re-proved on every run against lean/WmModel/Gen/ChainLoops.lean, which the extractor prints from message/router.go
     "tie_theorems": [
         "Wm.ChainGo.extracted_filter_eq_model", "Wm.ChainGo.extracted_wrap_loop_eq_model",
-        "Wm.ChainGo.extracted_pubdec_loop_eq_model", "Wm.ChainGo.extracted_subdec_loop_eq_model",
+        "Wm.ChainGo.extracted_pubdec_loop_eq_model", "Wm.ChainGo.extracted_pubdec_nil_guard_eq_model", "Wm.ChainGo.extracted_subdec_loop_eq_model",
     ],
     "harness": "c09",
     "race": True,
@@ -60,7 +61,12 @@ PROP = {
             "argument together with the error), the failing one not the first one applied - RunHandlers reports it and is called "
             "again until it succeeds, the chain must then be the registered decorators, each once, in order; Handler.Stop() of one of "
             ">= 2 running handlers (T<h>), handlers added and given middlewares afterwards - they run router-level + their own, none "
-            "of a running or stopped handler's, and the running handlers keep their chains. Every registration call of every program is made from a slice the application owns, "
+            "of a running or stopped handler's, and the running handlers keep their chains. several_outputs_with_equal_uuids (7 fixed programs; handler kinds d / e in the random ones): handler functions that "
+            "return two distinct messages with the SAME UUID or three with EMPTY UUIDs in one go - every publisher decorator "
+            "(watermill's transform decorator for even ids, a hand-written one for odd ids) must act on every one of them, in the "
+            "order added, before the publisher gets them all. Stopped handlers: the name of a stopped handler is used again by a "
+            "handler added later, and Stop() is called once more through the old handle (T<h> on a stopped handler) - the new "
+            "handler keeps everything registered under its name. Every registration call of every program is made from a slice the application owns, "
             "with spare capacity, passed as `xs...`; token X (11 fixed programs caller_edits_its_slices, a third of the random "
             "programs, one AddHandler-placement variant of the exhaustive enumeration and a copy of every decorator-length case): "
             "the application hands all those slices, extended on their spare capacity by a foreign recorder, to a second router and "
@@ -70,7 +76,7 @@ PROP = {
     "trusted_base": [
         "Lean 4.33.0 kernel; axioms per theorem listed under theorem_axioms (subset of propext, Classical.choice, Quot.sound)",
         "extractor harness/cmd/extract/c09.go (go/ast: loop header, filter condition and body of handler.run, decorateHandlerPublisher, "
-        "decorateHandlerSubscriber; 31 structural facts about registration, snapshot and storing of the results) and the interpreter "
+        "decorateHandlerSubscriber; 32 structural facts about registration, snapshot and storing of the results) and the interpreter "
         "WmModel/ChainGo.lean as the semantics of those loop shapes",
         "Go semantics of slices/append/closures; a HandlerMiddleware / decorator is modelled as an arbitrary function alpha -> alpha",
         "differential harness harness/cmd/c09 (real Router, scripted subscribers, recording middlewares and decorators) + Lean driver "
@@ -96,8 +102,12 @@ PROP = {
         "failed decorateHandlerSubscriber leaves the publisher, which was decorated just before, decorated, and the retried "
         "RunHandlers decorates it a second time (reported as a defect of the unchanged tree, reproduced with the C08 harness "
         "token E<id>!). A failed decorateHandlerPublisher commits nothing.",
-        "A stopped handler's name and number are not used again (in the code as it is a handler added later under the same name "
-        "would inherit the stopped handler's handler-level middlewares, which are matched by name).",
+        "Handler-level middlewares are registered per handler NAME (that is how the code matches them): a handler added under "
+        "the name of a handler that has stopped runs, besides its own, what was registered under that name before - model and "
+        "monitor count registrations by name. Stop() on a handler that has already stopped changes nothing (Op.stopAgain).",
+        "A handler registered with a nil publisher (kind z) is not decorated: decorateHandlerPublisher begins with "
+        "`if h.publisher == nil { return nil }` (model decorateHandlerPublisher on Option; theorem decorateHandlerPublisher_nil; "
+        "generated Gen.pubDecNilGuard with tie theorem extracted_pubdec_nil_guard_eq_model; fact pubdec_nil_publisher_guard_first).",
         "Router.AddMiddleware does not take middlewaresLock: programs register from one goroutine and only after every started handler "
         "has processed a message (so its snapshot has been taken); concurrent registration is outside the property.",
     ],
@@ -111,7 +121,7 @@ PROP = {
                   "shapes are extracted from the current source and proved equal to the model on every run; the model and an "
                   "independent monitor are compared with traces of the real Router on exhaustive short and random long programs.",
     "level_note": "Proved about the model, not about the Go code; the tie is checked on every run (generated loop shapes + interpreter + "
-                  "4 tie theorems, 31 structural facts, differential harness with -race). Middlewares and decorators are modelled as "
+                  "4 tie theorems, 32 structural facts, differential harness with -race). Middlewares and decorators are modelled as "
                   "pure functions; concurrency of registration with running handlers is not covered.",
     "technique": "Lean 4 theorems over a hand-written executable model + generated deep-embedded loop shapes with tie theorems + "
                  "differential correspondence check against the Go code",
